@@ -26,7 +26,7 @@ func (server *Server) Echo(conn *Conn, arg string) (*Message, error) {
 }
 
 func (server *Server) Select(conn *Conn, index int) (*Message, error) {
-	conn.id = index
+	conn.SetDatabase(index)
 	return NewOKMessage(), nil
 }
 
